@@ -14,19 +14,19 @@ STATE = ('_profilesProperties', '_rawProfiles', '_profileNames', '_usedMacros', 
 
 
 def run(chk):
-    r14g(chk)
-    r14a(chk)
-    r14b(chk)
-    r14d(chk)
-    r14h(chk)
-    r14i(chk)
+    chk.attempt(r14g, chk)
+    chk.attempt(r14a, chk)
+    chk.attempt(r14b, chk)
+    chk.attempt(r14d, chk)
+    chk.attempt(r14h, chk)
+    chk.attempt(r14i, chk)
     from .c13 import eval_validate
 
     eval_validate(chk, 'R14.d')
     from .c13 import r13a, r13c
 
-    r13c(chk, 'R14.e')
-    r13a(chk, 'R14.f')
+    chk.attempt(r13c, chk, 'R14.e')
+    chk.attempt(r13a, chk, 'R14.f')
 
 
 def _writes(node, attr):
